@@ -159,7 +159,7 @@ def spell_menv(req):
     """the environment `_extract_project_dates` derives from the text (after extraction)"""
     import scriptplan.parser.macro_processor as mp
     proc = mp.MacroProcessor()
-    content = proc._extract_macros(req["text"])
+    content = proc._extract_macros(mp.blank_comments(req["text"]))
     try:
         proc._extract_project_dates(content)
     except ValueError:
@@ -172,6 +172,11 @@ def op_mdefs(tok):
     proc = mp.MacroProcessor()
     rest = proc._extract_macros(G.unhexs(tok[0]))
     return "defs " + ",".join(G.hexs(k) + ":" + G.hexs(v) for k, v in proc._macros.items()) + " rest " + G.hexs(rest)
+
+
+def op_blank(tok):
+    import scriptplan.parser.macro_processor as mp
+    return "ok " + G.hexs(mp.blank_comments(G.unhexs(tok[0])))
 
 
 def op_strip(tok):
@@ -228,5 +233,5 @@ def spell_macro_default(req):
     return {"outcome": "ok", "length": len(out)}
 
 
-OPS = {"resolve": op_resolve, "deps": op_deps, "macro": op_macro, "mdefs": op_mdefs, "strip": op_strip}
+OPS = {"resolve": op_resolve, "deps": op_deps, "macro": op_macro, "mdefs": op_mdefs, "strip": op_strip, "blank": op_blank}
 JOPS = {"spell_macro_default": spell_macro_default, "spell_sched": spell_sched, "spell_menv": spell_menv, "spell_charclass": spell_charclass}
